@@ -128,22 +128,56 @@ int cmdSynth(int argc, char** argv) {
 	return 0;
 }
 
+// c01-samples <out.ndjson> [editVariants]: the sample files, and files the library writes after seeded block-graph edits
+// of them (appended nodes with empty child entries, loose blocks and chains of loose blocks, reorderings, deletions)
 int cmdSamples(int argc, char** argv) {
 	if (argc < 2) return 2;
 	std::string outPath = argv[1];
+	size_t variants = argc > 2 ? strtoul(argv[2], nullptr, 10) : 0;
 	auto files = sampleFiles();
+	uint64_t seed = seedFromEnv();
 	{ Out trunc(outPath); }
+	size_t per = 1 + variants;
 	size_t crashes = runForkedCases(
-		files.size(), outPath, 120,
-		[&](size_t k, std::string& out) {
+		files.size() * per, outPath, 120,
+		[&](size_t i, std::string& out) {
+			size_t k = i / per, v = i % per;
 			JObj c;
-			c.add("file", files[k]);
-			out += roundTrip(readFile(samplePath(files[k])), c.done());
+			c.add("file", files[k]).add("variant", (long long) v).add("seed", (long long) seed);
+			std::string f0 = readFile(samplePath(files[k]));
+			if (v > 0) {
+				NifFile nif;
+				if (loadFromString(nif, f0) != 0) return;
+				std::mt19937_64 r(seed * 977 + i);
+				size_t steps = 2 + r() % 6;
+				for (size_t s = 0; s < steps; s++) applyGraphOp(nif, jparse(randomGraphOp(nif, r)));
+				// a chain of loose named nodes stored child before parent, and a node with consecutive empty child entries
+				if (v % 2 == 0) {
+					auto& hdr = nif.GetHeader();
+					uint32_t prev = NIF_NPOS;
+					for (int j = 0; j < 3; j++) {
+						auto n = std::make_unique<NiNode>();
+						n->name.get() = "Loose" + std::to_string(j);
+						if (prev != NIF_NPOS) n->childRefs.AddBlockRef(prev);
+						for (int e = 0; e < j + 2; e++) n->childRefs.AddBlockRef(NIF_NPOS);
+						prev = hdr.AddBlock(std::move(n));
+					}
+					if (auto root = nif.GetRootNode())
+						for (int e = 0; e < 4; e++) root->childRefs.AddBlockRef(NIF_NPOS);
+				}
+				nif.LinkGeomData();
+				markPhase(1);
+				f0 = saveToString(nif, false, false);
+			}
+			markPhase(2);
+			out += roundTrip(f0, c.done());
 		},
-		[&](size_t k, const std::string& why, FILE* out) {
-			fprintf(out, "{\"e\":\"crash\",\"case\":{\"file\":%s},\"why\":%s}\n", J::str(files[k]).s.c_str(), J::str(why).s.c_str());
+		[&](size_t i, const std::string& why, FILE* out) {
+			int ph = lastCrashPhase();
+			fprintf(out, "{\"e\":\"%s\",\"case\":{\"file\":%s,\"variant\":%zu},\"why\":%s,\"phase\":%d}\n", (i % per) > 0 && ph < 2 ? "discard" : "crash",
+					J::str(files[i / per]).s.c_str(), i % per, J::str(why).s.c_str(), ph);
 		});
-	printf("{\"files\":%zu,\"crashes\":%zu}\n", files.size(), crashes);
+	printf("{\"files\":%zu,\"cases\":%zu,\"crashes\":%zu}\n", files.size(), files.size() * per, crashes);
 	return 0;
 }
 int cmdTypes(int argc, char** argv) {
